@@ -67,6 +67,23 @@ def plain(rng):
             if (Q[:k] != 0).any() or (Q[k + 1:] != 7).any():
                 return dict(reproduced=True, call='py_simulate_model(np.arange(0, 2, 0.1), rule Q = 7 scheduled at the grid time %r, %r)' % (float(T[k]), mode),
                             what='rows before / after the scheduled time', observed=Q.tolist(), expected='0 before row %d, 7 after it' % k)
+    # a rule scheduled at "start" and one at a binary-exact grid time, on ONE model simulated several times in every stochastic mode (an ensemble
+    # over seeds): the schedule holds in every run, not only in the first
+    for it in range(3):
+        T = np.arange(0, 4, 0.25)
+        k = rng.randint(2, len(T) - 3)
+        M = Model(species=['A', 'Q', 'R'], reactions=[([], ['A'], 'massaction', {'k': rng.uniform(0.5, 4)})], initial_condition_dict={'A': 0, 'Q': 0, 'R': 0})
+        M.create_rule('assignment', {'equation': 'Q = 7'}, repr(float(T[k])))
+        M.create_rule('assignment', {'equation': 'R = 3'}, 'start')
+        idx = M.get_species2index()
+        for run in range(3):
+            for mode in (dict(stochastic=True), dict(stochastic=True, delay=True), dict(stochastic=True, volume=1.0), dict(stochastic=True, delay=True, volume=1.0)):
+                py_seed_random(rng.randint(1, 10 ** 6))
+                data = np.array(py_simulate_model(T, Model=M, return_dataframe=False, **mode).py_get_result())
+                Q, R = data[:, idx['Q']], data[:, idx['R']]
+                if (Q[:k] != 0).any() or (Q[k + 1:] != 7).any() or (R != 3).any():
+                    return dict(reproduced=True, call='run %d on one model: py_simulate_model(np.arange(0, 4, 0.25), rules Q = 7 at %r and R = 3 at start, %r)' % (run, float(T[k]), mode),
+                                what='columns Q and R', observed=[Q.tolist(), R.tolist()], expected='Q: 0 before row %d, 7 after it; R: 3 on every row' % k)
     # rules given to the CONSTRUCTOR as a mixed list of (type, attributes, frequency) and (type, attributes): a rule without a frequency is a
     # repeated rule and holds on every row, whatever the frequency of the rule listed before it
     for it in range(6):
